@@ -33,6 +33,11 @@ type TransferOpts struct {
 	DebugGTE func(rsyncopts.DebugLevel, uint16) bool
 }
 
+// Filter reports whether the filter rules exclude a name.
+type Filter interface {
+	Matches(name string) bool
+}
+
 type Transfer struct {
 	// config
 	Logger   log.Logger
@@ -41,6 +46,10 @@ type Transfer struct {
 	DestRoot *os.Root
 	Env      *rsyncos.Env
 	Progress progress.Printer
+
+	// Filter, if set, holds the user's filter rules: entries it excludes
+	// are protected from --delete.
+	Filter Filter
 
 	// state
 	Conn            *rsyncwire.Conn
